@@ -69,9 +69,10 @@ class RecordingSource(DataSource):
     get_data raises for ids whose tag is in `raising`, else returns {"tag": "data-of-<tag(id)>"}.
     The log records the arguments with their types (tag)."""
 
-    def __init__(self, table, raising):
+    def __init__(self, table, raising, empties=()):
         self.table = table
         self.raising = set(raising)
+        self.empties = set(empties)       # (tagged) ids whose data is the empty tree
         self.log = []
 
     def find_system(self, lookup_key, lookup_value):
@@ -88,6 +89,8 @@ class RecordingSource(DataSource):
         self.log.append((1, tag(system_id) if ok_args else tag(system_id) + "?unexpected-arguments"))
         if tag(system_id) in self.raising:
             raise RuntimeError("get_data failed")
+        if tag(system_id) in self.empties:
+            return {}, "v0"
         return {"tag": "data-of-" + tag(system_id)}, "v1"
 
 
@@ -102,7 +105,7 @@ def _dump(ctx):
         out["id"] = tag(allv["id"])
     if "data" in allv:
         try:
-            out["data"] = allv["data"].get("tag")
+            out["data"] = allv["data"].get("tag", None)
         except Exception as ex:      # not the SmartLookupDict the documentation promises
             out["data"] = "?" + type(ex).__name__
     ri = allv.get("request_info")
